@@ -152,7 +152,7 @@ def check_group(ctx, case, schedules=None, tag_prefix=""):
         else:
             p = pers[(j + rng.randrange(len(pers))) % len(pers)] if j else "eager"
             pc = case.get("p_complete", 0.0) if j else 0.0        # the first schedule of a group never fires the hook
-            factory = (lambda p, pc: (lambda sim: CS.random_chooser(rng, p, 0.0, p_complete=pc)))(p, pc)
+            factory = (lambda p, pc: (lambda sim: CS.random_chooser(rng, p, 0.0, p_complete=pc, drain=True)))(p, pc)
         try:
             res = CS.run_real(case["template"], scripts if scripts is not None else mk_scripts, factory,
                               cont=case.get("cont", ()), real=bool(case.get("real")),
@@ -236,6 +236,8 @@ def check_group(ctx, case, schedules=None, tag_prefix=""):
              nontrivial=(n >= 3 and distinct_ops >= 2 and interesting), tags=tags)
     ctx.tag("schedules-run", len(runs))
     ctx.tag("ops-compared", sum(len(r.ops) for r in runs))
+    if any(len(r.ops) > max(CS.MAX_OPS, 40 * n) for r in runs):
+        ctx.tag("op-budget-used-up:schedule-finished-eagerly")
     # ---- oracle -----------------------------------------------------------------------------
     hooked = [any(op[0] == "complete" for op in r.ops) for r in runs]
     # the final maps that are judged against the rules (and that the classifier of the known finding looks at): the
@@ -416,7 +418,7 @@ def check_loop_group(ctx, case, schedules=None, tag_prefix=""):
             factory = (lambda ops: (lambda sim: detsim.scripted(ops, finish=True)))(schedules[j])
         else:
             p = pers[(j + rng.randrange(len(pers))) % len(pers)] if j else "eager"
-            factory = (lambda p: (lambda sim: CS.random_chooser(rng, p, 0.0)))(p)
+            factory = (lambda p: (lambda sim: CS.random_chooser(rng, p, 0.0, drain=True)))(p)
         try:
             res = CS.run_loop(dict(case, scripts={r: list(v) for r, v in (case.get("scripts") or {}).items()},
                                    _rng=None, flavour="given"), factory)
